@@ -15,19 +15,25 @@
    the last saved assignment, the last saved mapping of every field (None entries dropped, a field whose
    last mapping is empty is absent) next to the fields of valid foreign files, and the subset store.     *)
 EXTENDS VIO, FiniteSets
-CONSTANTS Depth, KeepHist
+CONSTANTS Depth, KeepHist,
+          ForeignKinds      \* which foreign files may be written (all eight in G / V runs; M runs keep two malformed ones)
 Fields == {"group", "quality"}
 Ids == {0, 2}
 \* mappings id -> value token ("none" = None); value tokens: i3, f15, good, i7
 Mappings == { [x \in Ids |-> IF x = 0 THEN "i3" ELSE "good"], [x \in Ids |-> IF x = 0 THEN "none" ELSE "f15"],
               [x \in Ids |-> "none"], [x \in {2} |-> "i7"] }
 Versions == {"v1", "v2"}
-ForeignKinds == {"valid", "multi", "empty", "garbage", "headeronly", "shortrow", "info"}
+AllForeignKinds == {"valid", "multi", "samefield", "empty", "garbage", "headeronly", "shortrow", "info"}
 \* well-formed foreign files and what they contribute: "valid" has one value column; "multi" has two value
-\* columns with an EMPTY cell in each row (also in the first data row): cluster 0 has no fa, cluster 2 no fb
+\* columns with an EMPTY cell in each row (also in the first data row): cluster 0 has no fa, cluster 2 no fb;
+\* "samefield" is a foreign .csv carrying the field "quality" - the SAME name as a field the model saves - for
+\* clusters 0 and 4: it shows only while no saved mapping of that field has a row (a saved mapping replaces it
+\* entirely, it is not merged with it: *.csv files are read before *.tsv files)
 ForeignFields == {"foreignfield", "fa", "fb"}
-FFieldsOf(k) == IF k = "valid" THEN {"foreignfield"} ELSE IF k = "multi" THEN {"fa", "fb"} ELSE {}
-FRows(f) == IF f = "foreignfield" THEN {<<0, "i5">>, <<2, "i7">>} ELSE IF f = "fa" THEN {<<2, "i7">>} ELSE {<<0, "i5">>}
+FFieldsOf(k) == IF k = "valid" THEN {"foreignfield"} ELSE IF k = "multi" THEN {"fa", "fb"}
+                ELSE IF k = "samefield" THEN {"quality"} ELSE {}
+FRows(f) == IF f = "foreignfield" THEN {<<0, "i5">>, <<2, "i7">>} ELSE IF f = "fa" THEN {<<2, "i7">>}
+            ELSE IF f = "fb" THEN {<<0, "i5">>} ELSE {<<0, "i5">>, <<4, "i7">>}
 NoModel == [open |-> FALSE]
 
 VARIABLES scFile, files, foreign, subset, model, lastSaved, hist
@@ -38,7 +44,7 @@ RowsOf(mp) == LET keep == {x \in DOMAIN mp : mp[x] # "none"} IN
                  LET x == CHOOSE y \in keep : Cardinality({z \in keep : z < y}) = r - 1 IN <<x, mp[x]>>]
 \* what a load makes of the files: field -> {<<id, value>>}; fields without rows are absent
 MdOfFiles == LET own == {f \in DOMAIN files : files[f] # <<>>} IN
-             [f \in own \cup FPresent |-> IF f \in ForeignFields THEN FRows(f) ELSE SeqSet(files[f])]
+             [f \in own \cup FPresent |-> IF f \in own THEN SeqSet(files[f]) ELSE FRows(f)]
 View == [open |-> TRUE, sc |-> scFile, md |-> MdOfFiles, subset |-> subset]
 Init == /\ scFile = "init" /\ files = <<>> /\ foreign = [k \in ForeignKinds |-> FALSE] /\ subset = FALSE
         /\ model = View /\ lastSaved = <<>> /\ hist = <<>>
@@ -69,7 +75,7 @@ Spec == Init /\ [][Next]_vars
 \* ---- P-layer: the dictionary reference model
 Visible(mp) == {<<x, mp[x]>> : x \in {y \in DOMAIN mp : mp[y] # "none"}}
 ExpectedMd == LET own == {f \in DOMAIN lastSaved : Visible(lastSaved[f]) # {}} IN
-              [f \in own \cup FPresent |-> IF f \in ForeignFields THEN FRows(f) ELSE Visible(lastSaved[f])]
+              [f \in own \cup FPresent |-> IF f \in own THEN Visible(lastSaved[f]) ELSE FRows(f)]
 ReloadShowsLastSaved == [][ (model' # model /\ model'.open) =>
                               (model'.sc = scFile /\ model'.md = ExpectedMd /\ model'.subset = subset) ]_vars
 \* malformed or excluded foreign files never change what a reload shows
